@@ -33,18 +33,26 @@ def main():
                 return cid, {'exit': rc, 'keys': keys[:6]}
             # the first check builds the harness against the changed tree; the rest run four at a time
             # (C18 has its own builds)
+            # MATRIX_CHECKS=C05,C16: re-run only these checks and merge them into the existing row
+            subset = [c for c in os.environ.get('MATRIX_CHECKS', '').split(',') if c]
+            if subset:
+                row = dict(matrix.get(name, {}))
             cid, r = one(IDS[7])
-            row[cid] = r
+            if not subset or cid in subset:
+                row[cid] = r
             import concurrent.futures
+            order = ['C18', 'C05', 'C10', 'C17', 'C01', 'C12', 'C19'] + [c for c in IDS if c not in ('C08', 'C18', 'C05', 'C10', 'C17', 'C01', 'C12', 'C19')]
+            if subset:
+                order = [c for c in order if c in subset]
             with concurrent.futures.ThreadPoolExecutor(max_workers=4) as ex:
-                for cid, r in ex.map(one, ['C18', 'C05', 'C10', 'C17', 'C01', 'C12', 'C19'] + [c for c in IDS if c not in ('C08', 'C18', 'C05', 'C10', 'C17', 'C01', 'C12', 'C19')]):
+                for cid, r in ex.map(one, order):
                     row[cid] = r
         finally:
             sh('git checkout -- . && git clean -fdq -e target', '/repo')
         matrix[name] = row
         json.dump(matrix, open(out_path, 'w'), indent=1)
-        det = [c for c in IDS if row[c]['exit'] == 1]
-        mach = [c for c in IDS if row[c]['exit'] not in (0, 1)]
+        det = [c for c in IDS if c in row and row[c]['exit'] == 1]
+        mach = [c for c in IDS if c in row and row[c]['exit'] not in (0, 1)]
         print(f'{name}: detected by {det} machinery {mach} ({time.time()-t0:.0f}s)', flush=True)
     return 0
 
